@@ -3,7 +3,9 @@ package props
 import (
 	"fmt"
 	"go/ast"
+	"go/token"
 	"go/types"
+	"golang.org/x/tools/go/types/typeutil"
 	"sort"
 	"strings"
 
@@ -14,12 +16,12 @@ import (
 
 func init() {
 	register(&Property{
-		ID:        "C20",
-		Technique: "static analysis: field mod-sets of the write-batch implementations (what the mutators may store vs what Clear/Destroy reset), who-may-call enumeration of raw iterator constructors, guard implication by truth table on the shared range/limit iterator (which bound and which open bit each direction tests)",
-		Explanation: "Decides three narrow clauses of 'one contract for all engines': (T1) a cleared batch carries nothing over: for every implementation of engine.WriteBatch the receiver fields its mutators (Put, Delete, DeleteRange, Merge) may store to are reset by Clear and by Destroy, and wrappers delegate Clear to the wrapped batch; (T2) bounds, direction and limits are implemented once: outside package engine no raw engine iterator is obtained (only the shared range/limit wrapper constructors); (T3) the shared wrapper tests the upper bound with the right-open bit when iterating forward and the lower bound with the left-open bit when iterating in reverse, both in Valid and at the initial positioning, and the Count/Offset limits are applied in Valid/constructor.",
-		NotDecided: "nearly all of C20: observational equivalence of pebble, the in-memory trees and (C++) rocksdb for seeks, merges, delete-range, snapshots; the merge operators' arithmetic agreement; SeekForPrev semantics of each engine.",
+		ID:          "C20",
+		Technique:   "static analysis: field mod-sets of the write-batch implementations (what the mutators may store vs what Clear/Destroy reset), who-may-call enumeration of raw iterator constructors, guard implication by truth table on the shared range/limit iterator (which bound and which open bit each direction tests)",
+		Explanation: "Decides three narrow clauses of 'one contract for all engines': (T1) a cleared batch carries nothing over: for every implementation of engine.WriteBatch the receiver fields its mutators (Put, Delete, DeleteRange, Merge) may store to are reset by Clear and by Destroy, and wrappers delegate Clear to the wrapped batch; (T2) bounds, direction and limits are implemented once: outside package engine no raw engine iterator is obtained (only the shared range/limit wrapper constructors); (T3) the shared wrapper tests the upper bound with the right-open bit when iterating forward and the lower bound with the left-open bit when iterating in reverse, both in Valid and at the initial positioning, and the Count/Offset limits are applied in Valid/constructor. (T3, fallback) when SeekForPrev finds nothing the reverse fallback to the first key steps back if that key is beyond Max; (T5) the three in-memory DeleteRange walks stop at the end key (exclusive, like rocksdb and pebble); (T6) SeekForPrev is less-than-or-equal in every engine iterator: an implementation that uses a strictly-less seek looks for the equal key first.",
+		NotDecided:  "nearly all of C20: observational equivalence of pebble, the in-memory trees and (C++) rocksdb for seeks, merges, delete-range, snapshots; the merge operators' arithmetic agreement; SeekForPrev semantics of each engine.",
 		Assumptions: []string{"mod-sets are computed from direct stores in the methods (and one level of same-type helper calls)"},
-		Run: runC20,
+		Run:         runC20,
 	})
 }
 
@@ -274,12 +276,167 @@ func runC20(c *Ctx) {
 			}
 			r.GuardSite("C20-T3", u, s, c.W.Parse("!p3 && p1.Type&common.RangeLOpen > 0 && bytes.Compare(it.Iterator.RefKey(), p1.Min) <= 0"), "forward: skip the key equal to Min only when left-open")
 		}
+		// the reverse fallback (SeekToFirst after an empty SeekForPrev) must not leave the iterator on a key beyond Max
+		for _, f := range u.Match(an.Call("engine.Iterator.SeekToFirst")) {
+			if !flow.Implies(u.SitePC(f), c.W.Parse("p3")).Holds {
+				continue
+			}
+			okFb := false
+			for _, s := range u.Match(an.Call("engine.Iterator.Prev")) {
+				if reaches(u, f, s) && flow.Implies(u.SitePC(s), c.W.Parse("1 == bytes.Compare(it.Iterator.RefKey(), p1.Max)")).Holds {
+					okFb = true
+				}
+			}
+			r.Check("C20-T3", u.Name+": reverse: a fallback to the first key is followed by a step back when that key is beyond Max", u.Pos(f.Pos), okFb,
+				"the first key of the store is returned as part of a range it does not belong to (the reverse validity test only looks at Min)")
+		}
 		for _, s := range u.Match(an.Call("engine.Iterator.Prev")) {
 			pc := u.SitePC(s)
 			if res := flow.Implies(pc, c.W.Parse("i < p2.Offset")); res.Holds {
 				continue
 			}
+			// the other legitimate step back: SeekForPrev found nothing, the fallback stands on the first key and that key is beyond Max
+			if res := flow.Implies(pc, c.W.Parse("p3 && 1 == bytes.Compare(it.Iterator.RefKey(), p1.Max)")); res.Holds {
+				fb := u.Match(an.Call("engine.Iterator.SeekToFirst"))
+				after := false
+				for _, f := range fb {
+					if reaches(u, f, s) && flow.Implies(u.SitePC(f), c.W.Parse("p3 && !it.Iterator.Valid()")).Holds {
+						after = true
+					}
+				}
+				r.Check("C20-T3", u.Name+": reverse: when nothing is <= Max the fallback steps before the first key (the range is empty)", u.Pos(s.Pos), after, "")
+				continue
+			}
 			r.GuardSite("C20-T3", u, s, c.W.Parse("p3 && p1.Type&common.RangeROpen > 0 && bytes.Compare(it.Iterator.RefKey(), p1.Max) >= 0"), "reverse: skip the key equal to Max only when right-open")
 		}
 	}
+}
+
+func init() {
+	old := registry["C20"].Run
+	registry["C20"].Run = func(c *Ctx) { old(c); c20T5(c) }
+}
+
+// T5: DeleteRange(start, end) excludes end on rocksdb and pebble (their own batch does it); the three in-memory
+// implementations (skiplist, btree, radix) walk from start and must stop *at* end: the loop is left under
+// bytes.Compare(key, end) >= 0. Sibling agreement over every such loop in engine/mem_writebatch.go.
+func c20T5(c *Ctx) {
+	r := c.R
+	r.Clause("C20-T5", "the in-memory DeleteRange implementations exclude the end key, like rocksdb and pebble")
+	n := 0
+	for _, fn := range c.P.Funcs() {
+		if load.ShortPkg(fn.Pkg.PkgPath) != "engine" || fn.Decl.Body == nil || !strings.HasSuffix(c.P.Fset.Position(fn.Decl.Pos()).Filename, "mem_writebatch.go") {
+			continue
+		}
+		info := fn.Pkg.TypesInfo
+		ast.Inspect(fn.Decl.Body, func(nd ast.Node) bool {
+			is, ok := nd.(*ast.IfStmt)
+			if !ok || len(is.Body.List) != 1 {
+				return true
+			}
+			br, ok := is.Body.List[0].(*ast.BranchStmt)
+			if !ok || br.Tok != token.BREAK {
+				return true
+			}
+			// find `bytes.Compare(x, y) OP 0` in the condition
+			ast.Inspect(is.Cond, func(m ast.Node) bool {
+				be, ok := m.(*ast.BinaryExpr)
+				if !ok {
+					return true
+				}
+				call, ok := ast.Unparen(be.X).(*ast.CallExpr)
+				if !ok {
+					return true
+				}
+				f, _ := typeutil.Callee(info, call).(*types.Func)
+				if f == nil || f.FullName() != "bytes.Compare" {
+					return true
+				}
+				if tv, ok := info.Types[be.Y]; !ok || tv.Value == nil || tv.Value.ExactString() != "0" {
+					return true
+				}
+				n++
+				r.Check("C20-T5", fmt.Sprintf("%s: the range walk stops at the end key (Compare(key, end) >= 0)", fn.Name), c.P.Pos(is.Pos()), be.Op == token.GEQ,
+					"the loop is left under Compare "+be.Op.String()+" 0: the end key itself is deleted, unlike on rocksdb and pebble")
+				return false
+			})
+			return true
+		})
+	}
+	r.Min("C20-T5", n, 3, "range walks in the in-memory write batch")
+}
+
+func init() {
+	old := registry["C20"].Run
+	registry["C20"].Run = func(c *Ctx) { old(c); c20T6(c) }
+}
+
+// T6: the iterator contract says SeekForPrev(k) stands on the last key <= k (rocksdb's meaning; the shared range iterator
+// relies on it for closed upper bounds). An implementation that only calls a strictly-less seek (pebble's SeekLT, the
+// btree's SeekLT) loses the key equal to k. Every SeekForPrev in package engine that uses a strict seek must first look
+// for the equal key: a greater-or-equal seek followed by an equality test that returns.
+func c20T6(c *Ctx) {
+	r := c.R
+	r.Clause("C20-T6", "SeekForPrev means less-than-or-equal on every engine iterator")
+	n := 0
+	for _, fn := range c.P.Funcs() {
+		if load.ShortPkg(fn.Pkg.PkgPath) != "engine" || fn.Decl.Name.Name != "SeekForPrev" || fn.Decl.Recv == nil || fn.Decl.Body == nil {
+			continue
+		}
+		u, err := c.W.Unit(fn.Name)
+		if err != nil {
+			continue
+		}
+		n++
+		var strict, ge *flow.Site
+		for _, s := range u.Sites {
+			if s.Kind != flow.SCall || s.Call == nil {
+				continue
+			}
+			name := ""
+			if sel, ok := ast.Unparen(s.Call.Fun).(*ast.SelectorExpr); ok {
+				name = sel.Sel.Name
+			}
+			switch name {
+			case "SeekLT":
+				strict = s
+			case "SeekGE", "Seek":
+				if ge == nil {
+					ge = s
+				}
+			}
+		}
+		construct := fn.Name + ": positions on the last key <= target"
+		switch {
+		case strict == nil:
+			// delegates to something that is less-or-equal by name/contract (SeekForPrev of the wrapped iterator,
+			// ReverseLowerBound, find_le): noted, not judged
+			var callees []string
+			for _, s := range u.Sites {
+				if s.Kind == flow.SCall && s.Call != nil {
+					callees = append(callees, u.C.Term(s.Call.Fun))
+				}
+			}
+			r.Ok("C20-T6", construct, "", "no strict seek: delegates to "+strings.Join(callees, ", "))
+		case ge != nil && reaches(u, ge, strict):
+			// the equal key is looked for first, and the strict seek is skipped when it was found
+			eq := false
+			for _, s := range u.Match(an.Return()) {
+				if reaches(u, ge, s) && !reaches(u, strict, s) {
+					pc := u.SitePC(s)
+					atoms := map[string]*flow.F{}
+					pc.Atoms(atoms)
+					for k := range atoms {
+						if strings.Contains(k, "Equal(") || strings.Contains(k, "cmp(") || strings.Contains(k, "Compare(") {
+							eq = true
+						}
+					}
+				}
+			}
+			r.Check("C20-T6", construct, u.Pos(strict.Pos), eq, "a greater-or-equal seek precedes the strict one, but no early return on the equal key was found")
+		default:
+			r.Bad("C20-T6", construct, u.Pos(strict.Pos), "only a strictly-less seek ("+u.C.Term(strict.Call.Fun)+"): the key equal to the target is skipped, so a reverse scan with a closed upper bound loses its first element on this engine")
+		}
+	}
+	r.Min("C20-T6", n, 4, "SeekForPrev implementations in package engine")
 }
